@@ -2,6 +2,8 @@ package cluster
 
 import (
 	"errors"
+	"os"
+	"path/filepath"
 
 	"github.com/semafind/semadb/diskstore"
 )
@@ -35,6 +37,8 @@ func (c *ClusterNode) internalRoute(remoteFn string, args Destinationer, reply a
 	switch remoteFn {
 	case "ClusterNode.RPCSetNodeKeyValue":
 		err = dest.RPCSetNodeKeyValue(args.(*RPCSetNodeKeyValueRequest), reply.(*RPCSetNodeKeyValueResponse))
+	case "ClusterNode.RPCSendShard":
+		err = dest.RPCSendShard(args.(*RPCSendShardRequest), reply.(*RPCSendShardResponse))
 	default:
 		return errors.New("verif transport: unsupported remote function " + remoteFn)
 	}
@@ -142,5 +146,114 @@ func syncScenario(users []string, faultMode int, swap bool, n int, onB []bool) {
 		_, inA := ra[key]
 		_, inB := rb[key]
 		vassert("record-resides-exactly-on-its-owner", inA == (owner == "A") && inB == (owner == "B"))
+	}
+}
+
+// ---- C14(2): shard-file transfer. sendShardFile + RPCSendShard between two node objects over
+// the executor's file model (natively: real files in a scratch directory); the chunk size is
+// reduced to 2 bytes (renames.json) so that files of 0..5 bytes span 0..3 chunks.
+
+// FileHash is taken out of the way (renames.json): symbolically the checksum is an injective
+// function of the file content; natively the original runs.
+func FileHash(path string) (uint64, error) {
+	if !vsymbolic() {
+		return verifOrigFileHash(path)
+	}
+	data, ok := vreadfile(path)
+	if !ok {
+		return 0, errors.New("file does not exist")
+	}
+	return vcontenthash(data), nil
+}
+
+func vwritefile(path string, data []byte) {
+	if err := os.MkdirAll(filepath.Dir(path), 0755); err != nil {
+		panic(err)
+	}
+	if err := os.WriteFile(path, data, 0644); err != nil {
+		panic(err)
+	}
+}
+func vreadfile(path string) ([]byte, bool) {
+	b, err := os.ReadFile(path)
+	return b, err == nil
+}
+func vcontenthash(data []byte) uint64 { return 0 }
+
+func sameBytes(a, b []byte) bool {
+	if len(a) != len(b) {
+		return false
+	}
+	for i := range a {
+		if a[i] != b[i] {
+			return false
+		}
+	}
+	return true
+}
+
+func VerifShardFileTransfer() {
+	rootA, rootB := "/a", "/b"
+	if !vsymbolic() {
+		d, err := os.MkdirTemp("", "verifsync")
+		if err != nil {
+			panic(err)
+		}
+		defer os.RemoveAll(d)
+		rootA, rootB = d+"/a", d+"/b"
+	}
+	servers := []string{"A", "B"}
+	a, b := syncNode("A", servers), syncNode("B", servers)
+	a.cfg.ShardManager.RootDir, b.cfg.ShardManager.RootDir = rootA, rootB
+	verifNodes = map[string]*ClusterNode{"A": a, "B": b}
+	defer func() { verifNodes, verifRouteFault = nil, nil }()
+	size := nondetIntRange(1, vparam("SIZE", 5)) // a bbolt file is never empty (a zero-length file would never get a checksum: not a reachable input)
+	content := nondetBytes(size)
+	rel := "/" + USERCOLSDIR + "/u/c/shard1/sharddb.bbolt"
+	vwritefile(rootA+rel, content)
+	// another shard of the same collection stays on this node
+	rel2 := "/" + USERCOLSDIR + "/u/c/shard2/sharddb.bbolt"
+	other := []byte{7, 7, 7}
+	vwritefile(rootA+rel2, other)
+	// first attempt: the k-th chunk RPC fails before or after delivery (or no fault)
+	faultAt := nondetIntRange(-1, vparam("CHUNKS", 4))
+	faultMode := nondetIntRange(1, 2)
+	calls := 0
+	verifRouteFault = func(fn, dest string) int {
+		k := calls
+		calls++
+		if k == faultAt {
+			return faultMode
+		}
+		return 0
+	}
+	err1 := a.sendShardFile("B", rootA+rel)
+	vcover("reached")
+	faulted := faultAt >= 0 && calls > faultAt
+	srcData, srcOk := vreadfile(rootA + rel)
+	dstData, dstOk := vreadfile(rootB + rel)
+	if !faulted {
+		vassert("fault-free-transfer-succeeds", err1 == nil)
+	}
+	// a source copy is removed only after the destination holds a complete identical copy
+	if !srcOk {
+		vassert("source-removed-only-after-a-complete-verified-copy", dstOk && sameBytes(dstData, content))
+	} else {
+		vassert("source-unchanged-while-it-exists", sameBytes(srcData, content))
+	}
+	if err1 == nil {
+		vassert("successful-transfer-moves-the-file", !srcOk && dstOk && sameBytes(dstData, content))
+	}
+	if keep, ok := vreadfile(rootA + rel2); true {
+		vassert("other-shards-of-the-collection-are-untouched", ok && sameBytes(keep, other))
+	}
+	// a later synchronisation (fault free) completes the move
+	verifRouteFault = nil
+	if srcOk {
+		err2 := a.sendShardFile("B", rootA+rel)
+		vassert("later-transfer-completes-the-move", err2 == nil)
+		_, srcOk2 := vreadfile(rootA + rel)
+		dst2, dstOk2 := vreadfile(rootB + rel)
+		vassert("after-the-retry-the-file-is-only-at-the-destination-and-identical", !srcOk2 && dstOk2 && sameBytes(dst2, content))
 	}
 }
